@@ -3,6 +3,8 @@ package main
 import (
 	"os"
 	"fmt"
+	"go/token"
+	"go/types"
 	"sort"
 	"strings"
 
@@ -37,6 +39,7 @@ var convAssertAllowed = map[string]string{
 }
 
 func (c *Ctx) ruleConv() {
+	c.ruleTypeIdentity()
 	rep := c.rep
 	tt := c.eng.tt
 	// ---- ASSERT
@@ -329,4 +332,52 @@ func (c *Ctx) ruleConv() {
 			rep.bad("R-CONV", pair[0], "declines only nil, zero and unrelated values", c.p.pos(fn.Pos()), strings.Join(uniq(problems), "; "))
 		}
 	}
+}
+
+// typeIDConfirmed: the functions in which the identity of two reflect.Types
+// may decide something.  They are the leaf comparers valuesEqual dispatches
+// to after both operands were offered to the Stack/Condition converters and
+// declined; anywhere else a type-identity test would tell an alias (or a
+// pointer to one) from the native type it must behave like.
+var typeIDConfirmed = map[string]string{
+	"channelsEqual":  "leaf comparer for channels, reached from valuesEqual after the converters declined",
+	"functionsEqual": "leaf comparer for functions, reached from valuesEqual after the converters declined",
+	"mapsEqual":      "leaf comparer for maps, reached from valuesEqual after the converters declined",
+}
+
+func (c *Ctx) ruleTypeIdentity() {
+	rep := c.rep
+	n := 0
+	for _, fn := range c.p.Funcs {
+		ord := newOrdinal()
+		for _, b := range fn.Blocks {
+			for _, in := range b.Instrs {
+				bo, ok := in.(*ssa.BinOp)
+				if !ok || (bo.Op != token.EQL && bo.Op != token.NEQ) {
+					continue
+				}
+				isRT := func(v ssa.Value) bool {
+					nt, ok := v.Type().(*types.Named)
+					return ok && nt.Obj().Pkg() != nil && nt.Obj().Pkg().Path() == "reflect" && nt.Obj().Name() == "Type"
+				}
+				if !isRT(bo.X) || !isRT(bo.Y) {
+					continue
+				}
+				if k, ok := bo.X.(*ssa.Const); ok && k.IsNil() {
+					continue
+				}
+				if k, ok := bo.Y.(*ssa.Const); ok && k.IsNil() {
+					continue
+				}
+				n++
+				construct := ord.next("type identity test")
+				if why, ok := typeIDConfirmed[relName(fn)]; ok {
+					rep.ok("R-CONV", relName(fn), construct, c.p.instrPos(in), why)
+				} else {
+					rep.bad("R-CONV", relName(fn), construct, c.p.instrPos(in), "two reflect.Types are compared for identity outside the confirmed leaf comparers: an alias of Stack/Condition (or a pointer to one) has a different type than the native value it must behave like")
+				}
+			}
+		}
+	}
+	rep.Extra["type_identity_tests"] = n
 }
